@@ -84,7 +84,7 @@ type exhaustive struct {
 
 	nodes, nontrivial, exactRuns                                  int64
 	displacing, discards, earlyStops, fallbackOlder, fallbackNone int64
-	ownLost, removing, hidden                                     int64
+	ownLost, removing                                             int64
 }
 
 type snapshot struct {
@@ -202,7 +202,6 @@ func (e *exhaustive) visit(depth int, nt bool) {
 		e.fallbackNone += int64(st.fallbackNothing)
 		e.ownLost += int64(st.ownPutLost)
 		e.removing += int64(st.releasesRemoving)
-		e.hidden += int64(st.hiddenDiscard)
 		c := e.rec.Begin()
 		if childNT {
 			e.nontrivial++
@@ -276,7 +275,6 @@ func TestC06Exhaustive(t *testing.T) {
 					total.fallbackNone += e.fallbackNone
 					total.ownLost += e.ownLost
 					total.removing += e.removing
-					total.hidden += e.hidden
 				}
 			}
 		}
